@@ -59,7 +59,18 @@ func checkC19(c *Ctx, r *Report) {
 				}
 				return false
 			}
-			for _, a := range call.Args {
+			cands := append([]ast.Expr{}, call.Args...)
+			// the generator may also be the receiver (`genfun(F).genCommonFunc(in, out)`)
+			if se, ok := unparen(call.Fun).(*ast.SelectorExpr); ok {
+				rx := unparen(se.X)
+				if conv, ok := rx.(*ast.CallExpr); ok && len(conv.Args) == 1 {
+					if tv, ok := info.Types[conv.Fun]; ok && tv.IsType() {
+						rx = unparen(conv.Args[0])
+					}
+				}
+				cands = append(cands, rx)
+			}
+			for _, a := range cands {
 				if addFunc(a) {
 					continue
 				}
